@@ -150,6 +150,90 @@ def roundtrip_statuses(sst: int, t1st: int, t2st: int) -> bool:
 CLASSES = sorted(MESSAGE_TYPES)
 
 
+RESAVE_STAGE = ["status", "context", "outputs", "start_time", "end_time"]
+RESAVE_TASK = ["name", "implementing_class", "status", "start_time", "end_time", "stage_start", "stage_end", "loop_start", "loop_end", "task_exception_details"]
+
+
+def _mutate(stage, mode: int, i) -> None:
+    """Second (third) value of every field that a later save of a stage may change."""
+    if mode == 0:  # emptied / cleared (what reset_stage_for_retry does)
+        stage.status = WorkflowStatus.NOT_STARTED
+        stage.context, stage.outputs = {}, {}
+        stage.start_time = stage.end_time = None
+        for t in stage.tasks:
+            t.status = WorkflowStatus.NOT_STARTED
+            t.start_time = t.end_time = None
+            t.task_exception_details = {}
+            t.loop_start = t.loop_end = False
+    elif mode == 1:  # falsy but present
+        stage.status = WorkflowStatus.RUNNING
+        stage.context, stage.outputs = {"z": 0, "e": "", "n": None, "f": False}, {"z": 0}
+        stage.start_time = stage.end_time = 0
+        for t in stage.tasks:
+            t.status = WorkflowStatus.RUNNING
+            t.start_time = t.end_time = 0
+            t.task_exception_details = {"k": {}}
+            t.loop_start, t.loop_end = True, False
+    else:  # new non-empty values
+        stage.status = WorkflowStatus.TERMINAL
+        stage.context, stage.outputs = {"new": i, "nest": {"l": [i]}}, {"o": i + 1}
+        stage.start_time, stage.end_time = i, i + 5
+        for t in stage.tasks:
+            t.status = WorkflowStatus.TERMINAL
+            t.start_time, t.end_time = i + 1, i + 2
+            t.task_exception_details = {"exception": {"details": {"error": "second", "code": i}}}
+            t.loop_start, t.loop_end = False, True
+
+
+def resave_roundtrip(via_txn: bool, m1: int, m2: int, i: int) -> bool:
+    """
+    post: _
+    """
+    # store, then save the stage again twice with changed values (cleared / falsy / new, every
+    # ordered pair): what is read back is what was saved last, never an older value.
+    with hx.Path("resave_roundtrip") as P:
+        vt = hx.decide(via_txn)
+        a, b = hx.pick(m1, 3), hx.pick(m2, 3)
+        w = world2.SWorld(name="resave", json_stub=True)
+        try:
+            wf, s0, s1, t1, t2 = _build(i, i + 1, i + 2, 3, True, False, "a", ST[1], ST[1], ST[4], ST[1], JT[0], SP[0], None, WT[0])
+            w.store.store(wf)
+            cur = w.store.retrieve_stage(s0.id)
+            for step, mode in enumerate((a, b)):
+                _mutate(cur, mode, i + 10 * step)
+                v_before = cur.version
+                if vt:
+                    with w.store.transaction(w.queue) as txn:
+                        txn.store_stage(cur)
+                else:
+                    w.store.store_stage(cur)
+                back = w.store.retrieve_stage(s0.id)
+                with hx.native():
+                    P.reached((vt, a, b, step))
+                    info = {"via_transaction": vt, "saves": [["cleared", "falsy", "new"][x] for x in (a, b)][: step + 1]}
+                for f in RESAVE_STAGE:
+                    if getattr(back, f) != getattr(cur, f):
+                        return P.fail("C19/resave/stage.%s_is_not_what_was_saved_last" % f, {**info, "field": f})
+                if [t.id for t in back.tasks] != [t1.id, t2.id]:
+                    return P.fail("C19/resave/task_order_differs", info)
+                for to, tb in zip(cur.tasks, back.tasks):
+                    for f in RESAVE_TASK:
+                        x, y = getattr(to, f), getattr(tb, f)
+                        same = (bool(x) == bool(y)) if isinstance(x, bool) or isinstance(y, bool) else x == y
+                        if not same:
+                            return P.fail("C19/resave/task.%s_is_not_what_was_saved_last" % f, {**info, "field": f})
+                if back.version != v_before + 1:
+                    return P.fail("C19/resave/version_not_incremented_by_one", info)
+                full = w.store.retrieve(wf.id)
+                fs = next(x for x in full.stages if x.id == s0.id)
+                if fs.context != cur.context or fs.outputs != cur.outputs or [t.task_exception_details for t in fs.tasks] != [t.task_exception_details for t in cur.tasks]:
+                    return P.fail("C19/resave/retrieve_differs_from_retrieve_stage", info)
+                cur = back
+            return True
+        finally:
+            w.close()
+
+
 def _fill(cls, i1, i2, b, s: str, st, ost, phase):
     kw = {}
     for f in dataclasses.fields(cls):
@@ -246,6 +330,7 @@ PLAN = [
     ("roundtrip_values", "quick", 280),
     ("roundtrip_enums_workflow", "quick", 280),
     ("roundtrip_enums_stage", "quick", 280),
+    ("resave_roundtrip", "quick", 280),
     ("roundtrip_statuses", "thorough", 1500),
     ("message_roundtrip", "quick", 280),
     ("message_status_roundtrip", "quick", 280),
@@ -257,6 +342,7 @@ META = {
                   "src/stabilize/queue/sqlite/serialization.py:serialize_message/deserialize_message", "src/stabilize/persistence/sqlite/transaction.py:AtomicTransaction.push_message",
                   "src/stabilize/queue/sqlite/queue.py:push/poll_one", "src/stabilize/queue/messages.py:create_message_from_dict"],
     "bounds": ["workflow of 2 stages / 2 tasks; integer and boolean fields and dict leaves symbolic (unbounded ints); strings from {'', 'a', non-ASCII+quotes+backslash, 300 chars}; every WorkflowStatus / JoinType / SplitType / SyntheticStageOwner / WorkflowType member (one dimension at a time + combinations listed in the harness)",
+               "a stored stage saved again twice (plain store_stage and inside a transaction) with cleared / falsy / new values of every updatable stage and task field, every ordered pair, integer values symbolic",
                "every class of MESSAGE_TYPES, pushed directly and inside a transaction; CompleteTask with every status x original_status"],
     "stubs": ["json: dumps/loads replaced by a value-carrying stub with the contract loads(dumps(x)) == x (CPython's json, unicode escaping, floats are outside)",
               "SymDB instead of SQLite (validated differentially on every run)", "ids/clock stubs"],
